@@ -200,7 +200,7 @@ func (c18) Generate(tier string, yield func(*engine.Case) bool) {
 }
 
 type c18Probes struct {
-	eq, un, in, di, isset, get yae.Callable
+	eq, un, in, di, isset, get, str yae.Callable
 }
 
 var c18Cache = map[string]*c18Probes{}
@@ -236,6 +236,7 @@ func c18Compile(el *gen.Ty) (*c18Probes, error) {
 	p.un = comp("len(union(xs, ys))")
 	p.in = comp("len(intersect(xs, ys))")
 	p.di = comp("len(diff(xs, ys))")
+	p.str = comp("string(xs)")
 	if el.IsPrim() {
 		p.isset = comp("isset(m, y)")
 		p.get = comp("get(m, y, 0)")
@@ -245,6 +246,21 @@ func c18Compile(el *gen.Ty) (*c18Probes, error) {
 	}
 	c18Cache[k] = p
 	return p, nil
+}
+
+func hasObj(t *gen.Ty) bool {
+	if t == nil {
+		return false
+	}
+	if t.K == gen.KObj {
+		return true
+	}
+	for _, f := range t.Fields {
+		if hasObj(f.T) {
+			return true
+		}
+	}
+	return hasObj(t.El) || hasObj(t.Key) || hasObj(t.Val)
 }
 
 func toRealVal(v *ref.V, rep string) (*val.Val, error) {
@@ -301,7 +317,7 @@ func (c18) Run(c *engine.Case) *engine.Result {
 		return res
 	}
 	desc := fmt.Sprintf("%s vs %s [%s, %s]", d.X.Describe(), d.Y.Describe(), d.X.T, d.Rep)
-	var renders []string
+	var renders, renders2 []string
 	var out []string
 	for seed := 1; seed <= 8; seed++ {
 		seams.SetMapSeed(seed)
@@ -371,6 +387,26 @@ func (c18) Run(c *engine.Case) *engine.Result {
 		if (sx == sy) != same {
 			bad("render-disagrees-with-equality", "%s seed %d: renderings %q / %q, equal=%v", desc, seed, sx, sy, same)
 		}
+		// the language-level conversion string(v) must be canonical in the same way
+		if el := x.Type; el != nil {
+			tx, e7 := call(probes.str, map[string]*val.Val{"xs": mk(x), "ys": mk(x)})
+			ty, e8 := call(probes.str, map[string]*val.Val{"xs": mk(y), "ys": mk(y)})
+			t2, e9 := call(probes.str, map[string]*val.Val{"xs": mk(x2), "ys": mk(x2)})
+			if e7+e8+e9 != "" {
+				bad("probe-failed", "%s seed %d: string(): %s", desc, seed, stable(e7+e8+e9))
+			} else {
+				a, b, c2 := tx.Str().V, ty.Str().V, t2.Str().V
+				renders2 = append(renders2, a)
+				// (string() writes object fields in their stored order — the canonical rendering the
+				// property is anchored at is (*Val).String — so only object-free types are compared)
+				if same && !hasObj(d.X.T) && a != b {
+					bad("render-disagrees-with-equality", "%s seed %d: string() gives %q / %q for equal values", desc, seed, a, b)
+				}
+				if a != c2 {
+					bad("render-not-canonical", "%s seed %d: string() of two copies of one value gives %q and %q", desc, seed, a, c2)
+				}
+			}
+		}
 		if s2 := x2.String(); s2 != sx {
 			bad("render-not-canonical", "%s seed %d: two copies of one value render %q and %q", desc, seed, sx, s2)
 		}
@@ -401,6 +437,12 @@ func (c18) Run(c *engine.Case) *engine.Result {
 	for _, r := range renders {
 		if r != renders[0] {
 			bad("render-depends-on-map-seed", "%s: renders %q under one iteration order and %q under another", desc, renders[0], r)
+			break
+		}
+	}
+	for _, r := range renders2 {
+		if r != renders2[0] {
+			bad("render-depends-on-map-seed", "%s: string() gives %q under one iteration order and %q under another", desc, renders2[0], r)
 			break
 		}
 	}
